@@ -12,6 +12,7 @@ import SnowProofs.Lemmas.GenReal
 import Mathlib.Analysis.Complex.ExponentialBounds
 import SnowModel.Gen.Evap
 import SnowModel.EvapWindow
+import Mathlib.Tactic.Tauto
 
 namespace Snow.C20
 open Snow Snow.GenReal Snow.EvapWindow
@@ -296,6 +297,34 @@ theorem visf_step_eq_shelf_outside_window (p : VISF ℝ) (dt : ℝ) (i : ℕ) (d
   have h2 := (no_evap_outside_window false p .cooling (dt * (i : ℝ)) T dz lam (by simp)).1
   simp only [ofNat'_real]
   rw [h1, h2]
+
+/-- **before the window opens a VISF run is the shelf run**: with the loop body an arbitrary
+function of `q_e`, step index and state, the two runs coincide after `n` steps whenever none of
+the step times `t0 + dt·i`, `i < n`, lies strictly inside the vacuum window (in particular for
+every `n` when the window is empty or lies beyond the process). -/
+theorem visf_eq_shelf_before_window {σ : Type} (p : VISF ℝ) (s : Stage) (dt t0 : ℝ) (top : σ → ℝ)
+    (F : ℝ → ℕ → σ → σ) (n : ℕ) (st : σ)
+    (h : ∀ i < n, ¬(p.t_vac_start * 3600 < t0 + dt * i ∧ t0 + dt * i < (p.t_vac_start + p.t_vac_duration) * 3600)) :
+    runStage true p s dt t0 top F n st = runStage false p s dt t0 top F n st := by
+  induction n with
+  | zero => rfl
+  | succ n ih =>
+    have ih' := ih (fun i hi => h i (Nat.lt_succ_of_lt hi))
+    simp only [runStage, ofNat'_real]
+    rw [ih']
+    have h1 := (no_evap_outside_window true p s (t0 + dt * (n : ℝ)) (top (runStage false p s dt t0 top F n st)) 1 1
+      (by have := h n (Nat.lt_succ_self n); tauto)).1
+    have h2 := (no_evap_outside_window false p s (t0 + dt * (n : ℝ)) (top (runStage false p s dt t0 top F n st)) 1 1
+      (by simp)).1
+    rw [h1, h2]
+
+/-- an empty window (`t_vac_duration ≤ 0`) never opens: the whole VISF run is the shelf run -/
+theorem visf_eq_shelf_empty_window {σ : Type} (p : VISF ℝ) (hp : p.t_vac_duration ≤ 0) (s : Stage) (dt t0 : ℝ)
+    (top : σ → ℝ) (F : ℝ → ℕ → σ → σ) (n : ℕ) (st : σ) :
+    runStage true p s dt t0 top F n st = runStage false p s dt t0 top F n st := by
+  apply visf_eq_shelf_before_window
+  intro i _ ⟨h1, h2⟩
+  nlinarith
 
 /-- **evaporation cools the top exactly when the surface pressure is at least the chamber
 pressure**: inside the window of a VISF run, `q_e ≤ 0 ⇔ p_vac ≤ p_vap` (`T_l = T_v = T > 0`,
